@@ -876,7 +876,25 @@ func (f *Frame) siteStoreObligs(in *ssa.Store) {
 		if !strings.HasPrefix(sc.Pattern, "store ") || sc.E == nil {
 			continue
 		}
-		if strings.TrimSpace(strings.TrimPrefix(sc.Pattern, "store ")) != target {
+		pat := strings.Fields(strings.TrimSpace(strings.TrimPrefix(sc.Pattern, "store ")))
+		if len(pat) == 0 || pat[0] != target {
+			continue
+		}
+		if len(pat) == 3 && pat[1] == "new" {
+			// `store T.f new U`: only stores of a U value allocated right here (a composite literal of this function)
+			v := in.Val
+			if mi, ok := v.(*ssa.MakeInterface); ok {
+				v = mi.X
+			}
+			al, ok := v.(*ssa.Alloc)
+			if !ok {
+				continue
+			}
+			nt, ok := al.Type().Underlying().(*types.Pointer).Elem().(*types.Named)
+			if !ok || nt.Obj().Name() != pat[2] {
+				continue
+			}
+		} else if len(pat) != 1 {
 			continue
 		}
 		env := f.envAt(in.Block(), f.cur, nil)
